@@ -27,7 +27,7 @@ type c07Dom struct {
 
 func c07Domain(tier string) c07Dom {
 	if tier == "thorough" {
-		return c07Dom{graphs: 6, maxN: 15, sampled: 600}
+		return c07Dom{graphs: 4, maxN: 13, sampled: 300} // ~33 000 exhaustive subset runs + ~5 000 sampled: about an hour on 16 cores
 	}
 	return c07Dom{graphs: 2, maxN: 10, sampled: 24}
 }
@@ -37,7 +37,7 @@ func init() {
 		ID:    "C07",
 		Level: "fault_enumeration",
 		Rule: "golden = clean production run of request R on an empty cache; universe U = every durable file it left (full store snapshots, cached outputs, index files) + the partial store file of every (store stage, segment) unit, obtained from stand-alone tier2 jobs. " +
-			"exhaustive part: for G generated (package, R) pairs with |U| <= N (quick G=2,N=10; thorough G=6,N=15) EVERY subset S of U is restored into a fresh directory (a quarter of them with truncated '<file>.<8 letters>.tmp' siblings of missing files added) and R is run again (1..4 workers, PRNG completion order); " +
+			"exhaustive part: for G generated (package, R) pairs with |U| <= N (quick G=2,N=10; thorough G=4,N=13) EVERY subset S of U is restored into a fresh directory (a quarter of them with truncated '<file>.<8 letters>.tmp' siblings of missing files added) and R is run again (1..4 workers, PRNG completion order); " +
 			"sampled part: PRNG subsets of larger universes, a shifted request R', and real interruption states (request cancelled after the k-th data message, then re-run). Monitors per run: request completes; stream == sequential reference (C01/C04 clauses); every file left behind decodes to the reference content (cache auditor); no '.tmp' name is ever listed as a snapshot. " +
 			"concurrent part (mode race; quick 10, thorough 40 cases): 2..3 production requests run CONCURRENTLY on one state directory inside the -race binary, twice; completed requests must stream the reference, every file left behind must decode to the reference content, and the race detector watches the squasher's asynchronous snapshot writes against the next merge. " +
 			"live part (last plain cases: quick 4, thorough 200): a production request streaming ~130 blocks + 4 segments of a live chain beyond its hand-off while the tier1's live back-filler has tier2 (real gRPC) compute the segments that became final in the background: same stream and audit monitors on the files those jobs leave. " +
